@@ -520,6 +520,12 @@ class Closing(State):
             self.set_closed_state()
             return
 
+        if self.has_send_queue_message():
+            #: The DPR may have been queued behind more messages than one 
+            #: batch takes: they still have to leave, and the DPR with them.
+            self.send_message()
+            return
+
         if self.has_recv_queue_message():
             self.msg = self.get_message()
 
